@@ -300,7 +300,9 @@ def run(ctx):
         'asserts; 1-3 classes of candidates (token present and another '
         'removed) make the command sleep / spin on 1 or 4 threads / allocate '
         '(with and without --memout) / abort / segfault / kill itself / hang '
-        'after forking a helper that keeps stdout and stderr open; '
+        'after forking a helper that keeps stdout and stderr open; in half '
+        'of the sleep/spin/forksleep cases the faulty command is the '
+        'cross-check command (explicit or automatic --timeout-cc); '
         '--timeout explicit {0.2,0.3,0.5} or automatic; -j{1,4}; all '
         'strategies; plus golden-run cases (segfault, timeout, absent match '
         'string x 2 entry points); distinct non-trivial = distinct cases in '
